@@ -12,6 +12,7 @@ from . import rules_runtime as R
 from . import rules_template as TP
 from . import rules_iter as IT
 from . import rules_lexer2 as L2
+from . import rules_round3 as R3
 
 RULES = {
     "T1": T.rule_T1,
@@ -24,6 +25,13 @@ RULES = {
     "G6": T.rule_G6,
     "T14": S.rule_T14,
     "T15": IT.rule_T15,
+    "T16": R3.rule_T16,
+    "N5": R3.rule_N5,
+    "D8": R3.rule_D8,
+    "W4": R3.rule_W4,
+    "D3b": R3.rule_D3b,
+    "D9": R3.rule_D9,
+    "W5": R3.rule_W5,
     "N4": T.rule_N4,
     "T8": C.rule_T8,
     "T9": B.rule_T9,
@@ -99,10 +107,10 @@ PROPS = {
         "claim": "Decides the no-panic clause of C07 over everything reachable from execute_current_instruction and the 55 instruction "
         "functions (runtime, traits helpers, both data impls, SimpleNumber): every panic-capable site is in the reviewed allow-list "
         "with the reason it cannot fire, and every recursive cycle is allow-listed with its depth bound or reported. Value "
-        "reachability of an allow-listed site is by review, stated per site in allow/panic_sites.json.",
+        "reachability of an allow-listed site is by review, stated per site in allow/panic_sites.json. Recursive cycles are classified depth-bounded (a parameter tested against a limit with an unconditional exit, every recursive call passes it + k) or unbounded, so a change that stops counting depth turns a recorded finding into a new one.",
     },
     "C13": {
-        "rules": ["A3", "T2", "A8", "A7", "A9"],
+        "rules": ["A3", "T2", "A8", "A7", "A9", "D8"],
         "claim": "Decides five clauses of C13: (A3) a character that cannot start or continue a token makes lex fail - the lexer's error "
         "slot, once set, is never assigned a possibly-Ok value and no further character is consumed while it is set (path-sensitive "
         "typestate over the MIR of every Lexer method); (T2, first hop) the operator table is the language's 60 spellings; (A8) operators are classified by the trie node their "
@@ -114,19 +122,19 @@ PROPS = {
         "discarded by a buffer reset; the one-shot skip flag is back at rest), which is the inductive step of 'token texts concatenated reproduce the "
         "input'; (A9) positions: in every state the line feed advances the row counter exactly once and not the column, every other character (CR/FF, "
         "left open by the property, excepted) the column exactly once and not the row. Token start positions, longest match beyond the trie step and "
-        "blank-line grouping are value-dependent and not decided.",
+        "blank-line grouping are value-dependent and not decided. Also (D8): the column counters, which count characters, never receive a UTF-8 byte length (origin analysis of every store into the column fields).",
     },
     "C14": {
-        "rules": ["D1", "D5", "W2"],
+        "rules": ["D1", "D5", "W2", "N5"],
         "claim": "Decides the bytes-vs-characters clause of C14 over the data crate: no UTF-8 byte length (str::len / String::len) reaches a "
         "character-count sink (take/skip/nth on chars(), a CharList(n) header, the result of get_char_list_len), and the literal parsers "
         "contain no truncating char->u8 cast; (D5) an escape accumulator that has been decoded is emptied before it accumulates the next "
         "escape, on every path of the literal parsers (typestate over their MIR); (W2) a number literal is stored as the number it spells: the "
         "hash that alone keys SimpleGarnishData's constant table separates every two numbers the type distinguishes (so `5.0` after `5` is not "
-        "handed the Integer's address). Radix parsing and round-trips are value-level and not decided.",
+        "handed the Integer's address). Radix parsing and round-trips are value-level and not decided. Also (N5): the literal parsers hand a parsed integer to the number type only through a conversion whose From impl does not narrow with an `as` cast (an integer literal outside i32 becomes a float, it does not wrap).",
     },
     "C15": {
-        "rules": ["D2", "D3", "W1", "W2"],
+        "rules": ["D2", "D3", "W1", "W2", "D3b"],
         "claim": "Decides four structural clauses of C15: (D2) every index/slice of BasicGarnishData's raw heap vector is rebased on a "
         "StorageBlock.start (followed through locals, parameters to their call sites, struct fields to their initialisers); (D3) the six "
         "push_to_*_block siblings and the six copy stanzas of reallocate_heap each use one block in every role and agree on the "
@@ -134,35 +142,35 @@ PROPS = {
         "SimpleGarnishData's value list is append-only; (W2) every hand-written Hash impl inside the key of SimpleGarnishData's hash-keyed "
         "constant table feeds the hasher a loss-free encoding of the whole payload (no narrowing cast, rounding, or ignored payload), "
         "the necessary condition for 'a different constant gets a different address' since cache_add never compares the stored value. "
-        "Correctness for every interleaving/growth policy is not decided.",
+        "Correctness for every interleaving/growth policy is not decided. Also (D3b): every returning path through reallocate_heap that installs new extents for one block installs them for all six (no shortcut that moves some blocks only).",
     },
     "C16": {
-        "rules": ["G4", "T14"],
+        "rules": ["G4", "T14", "D9"],
         "claim": "Decides the 'absent is not an error' clause of C16: inside both implementations of get_list_item / "
         "get_list_item_with_symbol / get_list_len / get_list_item_iter, their list helpers, and the runtime's index_list / "
         "access_with_symbol, the locally constructed errors are exactly the reviewed ones (not-a-list, corrupt cell); any other "
         "constructed error - in particular one that depends on the index value or the item kind - is reported; and every "
         "match-based comparator the data crate hands to a sort or binary search (the association slots of a list, the two symbol "
         "tables) is antisymmetric: mirrored arguments get opposite orderings (T14) - a necessary condition for the sorted prefix the "
-        "key lookup searches. Order, length and that every present key is found are not decided beyond that.",
+        "key lookup searches. Order, length and that every present key is found are not decided beyond that. Also: match-based sort comparators order two keyed cells ascending by their first payload field, the key the binary search compares (T14); the end handed to Extents::new is a length / exclusive bound, never `len - 1` (D9).",
     },
     "C11": {
-        "rules": ["T5", "D1", "T15"],
+        "rules": ["T5", "D1", "T15", "W4"],
         "claim": "Decides the dispatch clauses of C11: the (type, type) dispatch of data_equal (outer match and the nested slice x slice "
         "match) is symmetric, its catch-all is the constant false, mirrored arms hand the same value roles and typed accessors to the "
         "same helper, and `!=` pushes the negation of the routine `==` pushes; the length that decides 'a single character equals the "
         "one-element list of it' is a character count, never a byte length (D1); the element-wise walk of two sequences loses no element: "
         "no iterator is consulted again (to decide which operand is longer) after a lossy adaptor - zip, take_while, map_while - ran over a "
         "borrow of it, so an operand exactly one element longer is never taken for equal (T15). Reflexivity/transitivity and element-wise "
-        "meaning depend on iterator contents and are not decided.",
+        "meaning depend on iterator contents and are not decided. Also (W4): the walk that flattens a concatenation into its item sequence expands every node it meets, without a visited set - a shared sub-sequence counts as often as it is referenced, which structural equality needs.",
     },
     "C19": {
-        "rules": ["T8", "W1"],
+        "rules": ["T8", "W1", "D2"],
         "claim": "Decides the agreement clauses of C19: for each of the 37 BasicData variants the reference fields followed by the "
         "reachability pass (create_index_stack) equal those remapped by the copy pass (clone_index_stack) equal "
         "spec/basicdata_refs.json, rebuilt values keep their field positions, both per-variant matches have no catch-all, every root "
         "kind (symbol table, register, value, frame, extra) is traced, remapped and written back, and only the compactor and the "
-        "store primitives rewrite cells (W1). Structural identity after compaction is not decided.",
+        "store primitives rewrite cells (W1). Structural identity after compaction is not decided. Also (D2): the compaction's look-ups slice the raw heap only with rebased bounds (must-analysis: both bounds of a slice, every definition of a local, every call site of a parameter) - the root look-ups of optimize() must not reach cells in front of the index list.",
     },
     "C04": {
         "rules": ["T10", "A2", "G5"],
@@ -188,14 +196,14 @@ PROPS = {
         "instruction it should point at. Root-stack exhaustion depends on program shape and is not decided.",
     },
     "C20": {
-        "rules": ["D4", "W1", "W3"],
+        "rules": ["D4", "W1", "W3", "W2"],
         "claim": "Decides the index-provenance clause of C20: every index a build emits or reports (jump operands, expression values, the "
         "entry index, jump-table entries) originates from the data object's current table lengths or from its own add_* results, never "
         "from a literal or an absolute position (D4), and build mutates earlier state only through get_from_jump_table_mut on its own "
         "placeholders (W1); a constant built into a shared data object starts from an empty accumulator: every function that starts a "
         "string / byte-list / list accumulation stores a fresh Some(collection) on every path, never conditionally on what an earlier, "
         "possibly aborted, accumulation left in the field (W3, must-pass-through on the MIR CFG). That each program computes the same result "
-        "as when built alone is not decided.",
+        "as when built alone is not decided. Also (W2): the hash that alone keys SimpleGarnishData's constant table separates every two numbers the type distinguishes (per-variant feeds or the discriminant), so a later program's literal cannot be handed an earlier program's different constant.",
     },
     "C06": {
         "rules": ["A1", "A6", "D6", "T8"],
@@ -220,7 +228,7 @@ PROPS = {
         "right operand in source order (A4, A5); after a declining host exactly one unit is pushed and after an accepting host none "
         "(A1 arity on the declined / accepted edges); and for every one of the 21x21 operand type pairs of every instruction function "
         "the dedicated UnsupportedOpTypes error cannot reach the function's Err return (G3). Other error sources (data-impl errors) "
-        "are not decided.",
+        "are not decided. Also (A4 unit-without-offer): in a function that defers undefined combinations, no path answers unit having neither asked the host nor read / built any value (flags-only interpretation); `type_cast`'s defined cast of unit is the one reviewed exception.",
     },
     "C10": {
         "rules": ["T4", "T9", "A1", "T11"],
@@ -232,12 +240,12 @@ PROPS = {
         "re-joins after the out-of-line operand / arm is always emitted. Order and at-most-one-arm in else-chains are not decided.",
     },
     "C17": {
-        "rules": ["A4", "A1", "T2", "T10"],
+        "rules": ["A4", "A1", "T2", "T10", "W5"],
         "claim": "Decides the per-occurrence clauses of C17: in `resolve` the host callback is reached only on paths where the input-value "
         "lookup pushed nothing, at most once, with the symbol stored at the instruction's own operand, and a declining host leaves "
         "exactly one unit (A4 + A1); in apply the host's apply callback receives the external's number and the right operand, once; "
         "identifiers are compiled to Resolve carrying the symbol of their own text and properties to Put (T2 wiring, T10 attribution). "
-        "Counts and order across a whole program are not decided.",
+        "Counts and order across a whole program are not decided. Also (W5): every function that builds a SimpleGarnishData from another one carries over each function-pointer field (resolver, op handler), so the documented callbacks still fire on a clone.",
     },
     "C09": {
         "rules": ["N1", "N2", "N3", "W2"],
@@ -250,13 +258,13 @@ PROPS = {
         "overflowing_*/f64 operations is trusted, not decided.",
     },
     "C12": {
-        "rules": ["T6", "N4", "T15"],
+        "rules": ["T6", "N4", "T15", "T16"],
         "claim": "Decides the wiring clause of C12: each of the four comparison functions reports an ordering for incomparable "
         "operands on which its own predicate is false, applies the predicate its name states, and the comparison helper "
         "makes only like-typed pairs of the ordered types comparable; every arm of SimpleNumber's partial_cmp returns the "
         "primitive partial_cmp of its operands, so NaN stays incomparable (unit) and -0.0 equals 0.0 (N4); the lexicographic walk of two "
         "lists loses no element before the lengths are compared (T15: no lossy iterator adaptor over a borrowed operand that is consulted "
-        "again - the shorter-prefix-first clause). Agreement with the natural order on ordinary values is std's and is not decided.",
+        "again - the shorter-prefix-first clause). Agreement with the natural order on ordinary values is std's and is not decided. Also (T16): in the element-wise list comparison the two lengths are compared only after the element loop (dominance on the MIR CFG) - the shorter-prefix-first tie-break, never a length-first order.",
     },
 }
 
